@@ -7,6 +7,7 @@ import (
 	"flag"
 	"fmt"
 	"os"
+	"os/exec"
 	"path/filepath"
 	"sort"
 	"strings"
@@ -278,6 +279,19 @@ func run(cfg runConfig) (*runResult, error) {
 	sort.Strings(lnames)
 	for _, n := range lnames {
 		lm := db.Lemmas[n]
+		if strings.HasPrefix(lm.Proof, "lean:") && cfg.tier == "thorough" {
+			// thorough tier: the bridge lemmas are checked by Lean 4 / Mathlib (spec/Lemmas.lean)
+			ok, detail := leanCheck(cfg.specDir)
+			if ok {
+				o := &Obligation{Name: "lemma." + n, Kind: "lemma", Func: "lemma", Props: cfg.props, Goal: tTrue,
+					Text:   "bridge lemma " + n + " = theorem Verif." + strings.TrimPrefix(lm.Proof, "lean:") + " of spec/Lemmas.lean (instance m = modulus, r = class of 2^256)",
+					Result: &SolveResult{Status: "unsat", Solver: "lean4-mathlib", Backend: "lean4-mathlib", Output: detail}}
+				e.obls = append(e.obls, o)
+				continue
+			}
+			res.assumed = append(res.assumed, fmt.Sprintf("lemma %s (%s; Lean check did not succeed: %s)", n, lm.Proof, trunc(detail, 200)))
+			continue
+		}
 		if lemmaIsAssumed(lm) {
 			res.assumed = append(res.assumed, fmt.Sprintf("lemma %s (%s)", n, lm.Proof))
 			continue
@@ -712,4 +726,29 @@ func funcFilter(key, pat string) bool {
 		return strings.HasSuffix(key, strings.TrimSuffix(pat, "$"))
 	}
 	return strings.Contains(key, pat)
+}
+
+var leanResult struct {
+	done   bool
+	ok     bool
+	detail string
+}
+
+// leanCheck compiles spec/Lemmas.lean once per run (Lean 4 with Mathlib, offline).
+func leanCheck(specDir string) (bool, string) {
+	if leanResult.done {
+		return leanResult.ok, leanResult.detail
+	}
+	leanResult.done = true
+	start := time.Now()
+	cmd := exec.Command("lean", filepath.Join(specDir, "Lemmas.lean"))
+	out, err := cmd.CombinedOutput()
+	txt := string(out)
+	if err != nil || strings.Contains(txt, "error") || strings.Contains(txt, "sorry") {
+		leanResult.detail = fmt.Sprintf("lean failed: %v %s", err, trunc(txt, 400))
+		return false, leanResult.detail
+	}
+	leanResult.ok = true
+	leanResult.detail = fmt.Sprintf("lean spec/Lemmas.lean: no errors, no sorry (%.0f s)", time.Since(start).Seconds())
+	return true, leanResult.detail
 }
